@@ -260,7 +260,24 @@ func (w *world) consumeSome(id int) {
 			// the FS view is not disturbed by the readers
 			w.checkFS(h, idx, id)
 		}
+		if closed && h.tar && len(h.expected) > 0 {
+			// nothing of a closed layer can be read through the FS view either
+			if got, err := listFS(h.l); err == nil && strings.Contains(got, "=") && !strings.HasSuffix(got, "=-") && hasContent(got) {
+				w.r.Fail("", "closed-layer-fs-delivered-file-content: "+h.desc)
+			}
+			w.r.Case("fs-after-close", false)
+		}
 	}
+}
+
+// hasContent: some listed file came with bytes.
+func hasContent(listing string) bool {
+	for _, e := range strings.Split(listing, ",") {
+		if i := strings.IndexByte(e, '='); i >= 0 && e[i+1:] != "-" && e[i+1:] != "" {
+			return true
+		}
+	}
+	return false
 }
 
 // checkFS: after the consumers ran, Layer.FS() still lists tarfs over the payload.
